@@ -96,7 +96,7 @@ func (r *Report) Check(ok bool, rule, construct, pos, okDetail, badDetail string
 // to the sinks crosses a success edge of g.
 func (r *Report) CutOb(p *Prog, rule, construct, pos string, res CutResult, g Guard) {
 	switch {
-	case len(res.Instances) == 0 && !res.Reachable:
+	case len(res.Instances) == 0 && res.Avoided == 0 && !res.Reachable:
 		r.Add(Obligation{Rule: rule, Construct: construct, Pos: pos, Verdict: Undecided,
 			Detail: "the sink is not reachable from the function entry at all (dead code or a misresolved anchor): nothing to decide for guard " + g.Name})
 	case len(res.Instances) == 0 && res.Reachable:
